@@ -500,3 +500,134 @@ pub fn apply_mutations(m: &M, muts: &[Mutation], kind: MutKind) -> M {
     }
     cur
 }
+
+// ---- arguments drawn from a document ----------------------------------------------
+
+/// keys of the top-level object, then keys found anywhere below
+pub fn all_keys(m: &M) -> Vec<String> {
+    fn go(m: &M, out: &mut Vec<String>) {
+        match m {
+            M::Arr(a) => a.iter().for_each(|x| go(x, out)),
+            M::Obj(o) => {
+                for (k, v) in o {
+                    if !out.contains(k) {
+                        out.push(k.clone());
+                    }
+                    go(v, out);
+                }
+            }
+            _ => {}
+        }
+    }
+    let mut out = vec![];
+    go(m, &mut out);
+    out
+}
+pub fn top_keys(m: &M) -> Vec<String> {
+    match m {
+        M::Obj(o) => o.keys().cloned().collect(),
+        _ => vec![],
+    }
+}
+pub fn all_strings(m: &M) -> Vec<String> {
+    fn go(m: &M, out: &mut Vec<String>) {
+        match m {
+            M::Str(s) => out.push(s.clone()),
+            M::Arr(a) => a.iter().for_each(|x| go(x, out)),
+            M::Obj(o) => o.values().for_each(|x| go(x, out)),
+            _ => {}
+        }
+    }
+    let mut out = vec![];
+    go(m, &mut out);
+    out
+}
+
+fn swap_ascii_case(s: &str) -> String {
+    s.chars()
+        .map(|c| if c.is_ascii_lowercase() { c.to_ascii_uppercase() } else { c.to_ascii_lowercase() })
+        .collect()
+}
+
+/// a name that hits or narrowly misses one of `keys`
+pub fn derive_name(keys: &[String], sel: u16, mode: u16, extra: &str) -> String {
+    if keys.is_empty() {
+        return extra.to_string();
+    }
+    let k = &keys[pick(sel, keys.len())];
+    match mode % 8 {
+        0 | 1 | 2 => k.clone(),
+        3 => swap_ascii_case(k),
+        4 => k.to_ascii_uppercase(),
+        5 => {
+            let mut c: Vec<char> = k.chars().collect();
+            c.pop();
+            c.into_iter().collect()
+        }
+        6 => format!("{k}{extra}"),
+        _ => extra.to_string(),
+    }
+}
+
+/// an index around the ends of a list of length `len`, or an extreme
+pub fn derive_index(len: usize, sel: u16) -> i64 {
+    let l = len as i64;
+    let span = 2 * l + 5; // -len-2 ..= len+2
+    let extremes = [i32::MIN as i64, i32::MIN as i64 + 1, i32::MAX as i64 - 1, i32::MAX as i64];
+    let n = span as usize + extremes.len();
+    let i = pick(sel, n);
+    if (i as i64) < span {
+        // shrink towards 0: order 0,1,-1,2,-2,...
+        let k = i as i64;
+        let v = if k % 2 == 1 { (k + 1) / 2 } else { -(k / 2) };
+        v.clamp(-l - 2, l + 2)
+    } else {
+        extremes[i - span as usize]
+    }
+}
+
+/// random walk into the document, producing a key path that resolves most of the time
+pub fn derive_path(m: &M, steps: &[(u16, u16, u16)], extra: &str) -> Vec<crate::treefn::KP> {
+    use crate::treefn::KP;
+    let mut out = vec![];
+    let mut cur = Some(m);
+    for (sel, mode, aux) in steps {
+        match cur {
+            Some(M::Arr(a)) => {
+                let idx = match mode % 8 {
+                    0..=3 if !a.is_empty() => pick(*sel, a.len()) as i64,
+                    4 | 5 if !a.is_empty() => pick(*sel, a.len()) as i64 - a.len() as i64,
+                    6 => derive_index(a.len(), *aux),
+                    _ => {
+                        out.push(if aux % 2 == 0 { KP::Name(extra.to_string()) } else { KP::Quoted(format!("{}", sel % 3)) });
+                        cur = None;
+                        continue;
+                    }
+                };
+                out.push(KP::Index(idx.clamp(i32::MIN as i64, i32::MAX as i64) as i32));
+                cur = crate::treefn::resolve_index(a.len(), idx).map(|i| &a[i]);
+            }
+            Some(M::Obj(o)) => {
+                let keys: Vec<String> = o.keys().cloned().collect();
+                if mode % 8 == 7 {
+                    out.push(KP::Index((*aux % 5) as i32 - 2));
+                    cur = None;
+                    continue;
+                }
+                let name = derive_name(&keys, *sel, if mode % 8 < 5 { 0 } else { *aux }, extra);
+                cur = o.get(&name);
+                out.push(if aux % 2 == 0 { KP::Name(name) } else { KP::Quoted(name) });
+            }
+            _ => {
+                // into or past a scalar, or after a miss
+                out.push(match mode % 3 {
+                    0 => KP::Index((*aux % 5) as i32 - 2),
+                    1 => KP::Name(extra.to_string()),
+                    _ => KP::Quoted(extra.to_string()),
+                });
+                cur = None;
+            }
+        }
+    }
+    out
+}
